@@ -54,7 +54,7 @@ func newPMFromFile(options plugintypes.OperatorOptions) (plugintypes.Operator, e
 		if l[0] == '#' {
 			continue
 		}
-		lines = append(lines, strings.ToLower(l))
+		lines = append(lines, asciiLower(l))
 	}
 
 	builder := ahocorasick.NewAhoCorasickBuilder(ahocorasick.Opts{
